@@ -32,7 +32,7 @@ ASSUMPTIONS = [
     "for line endings other than '\\n' only the written bytes are judged, not what reopening yields",
     "record variants: byte exactness of save() is not demanded, every saved line must load to the model's record",
 ]
-NCASES = {"quick": 3200, "thorough": 60000}
+NCASES = {"quick": 3200, "thorough": 200000}
 NSHARDS = 16
 SHARD_TIMEOUT = {"quick": 900, "thorough": 3600}
 MOD = "vf.checks.c12"
